@@ -16,11 +16,11 @@ TRANSPORT = {
     "c15_eof_ends_the_stream": t("a byte stream at end-of-file ends the transport's Stream with None", []),
 }
 def mch(steps):
-    return {"desc": "in-memory transport (transport::channel::unbounded), %d solver-chosen operations on a connected pair — one end sends a symbolic u32 (poll_ready, start_send, poll_flush) / the other end polls its stream / the sending end is closed-and-dropped or just dropped: every message comes out exactly once, unchanged, in the order sent; an idle live peer gives Pending; end-of-stream is reported only once the peer is gone AND everything sent before has been delivered" % steps,
+    return {"desc": "in-memory transport (transport::channel::unbounded), %d solver-chosen operations on a connected pair — one end sends a symbolic u32 (poll_ready, start_send, poll_flush; a message counts as written only if the sink was ready and accepted it) / the other end polls its stream / the sending end is closed-and-dropped or just dropped: every message comes out exactly once, unchanged, in the order sent; an idle live peer gives Pending; end-of-stream is reported only once the peer is gone AND everything sent before has been delivered" % steps,
             "symbolic": ["which operation at each step", "every message body (u32)", "whether poll_close is called before the drop"],
             "bounds": "%d operations, <=3 undelivered messages, one direction, unwind %d" % (steps, steps + 2), "covers": 3}
 MEMCHAN = {"c15_memchan_steps4": mch(4), "c15_memchan_steps5": mch(5), "c15_memchan_steps7": mch(7),
-           "c15_memchan_survivor": {"desc": "the surviving end after its peer was dropped: its sink reports an error from poll_ready (no panic, nothing silently accepted), the message the peer sent before going away is still delivered, then the stream ends",
+           "c15_memchan_survivor": {"desc": "the surviving end after its peer was dropped: the message the peer sent before going away is still delivered, then the stream ends (polling the survivor's sink for readiness in between does not panic; what it reports is not part of the property)",
                                     "symbolic": ["message body (u32)"], "bounds": "one message, unwind 4", "covers": 1}}
 MEMCHAN_THOROUGH = {"c15_memchan_steps9": mch(9)}
 STATIC = {
